@@ -30,6 +30,9 @@ SRC = _args[0] if len(_args) > 0 else "/repo/src"
 OUT = _args[1] if len(_args) > 1 else os.path.join(os.path.dirname(os.path.abspath(__file__)), "..", "coq", "gen")
 
 
+SOFT_ERRORS = []
+
+
 class GenError(Exception):
     pass
 
@@ -534,19 +537,26 @@ def gen_funs(consts):
     s += "From Coq Require Import NArith.\nRequire Import SDS.Model.Mach SDS.gen.Consts.\nOpen Scope N_scope.\n\n"
     s += "(* usize arithmetic in a build mode: Debug = overflow checks on (panic), Release = wrap mod 2^64 *)\n"
     for fn in FUN_NAMES:
-        m = re.search(r"pub fn " + fn + r"\s*\(([^)]*)\)\s*->\s*usize\s*\{", bits)
-        if not m:
-            raise GenError("helper not found: " + fn)
-        params = [p.split(":")[0].strip() for p in m.group(1).split(",")]
-        body = strip_comments(fn_body(bits, r"pub fn " + fn + r"\s*\(")).strip()
-        if ";" in body:
-            raise GenError("helper %s is no longer a single expression" % fn)
-        p = RustExpr(tokenize(body))
-        e = p.expr()
-        if p.i != len(p.t):
-            raise GenError("helper %s: trailing tokens" % fn)
-        s += "(* %s *)\n" % re.sub(r"\s+", " ", body)
-        s += "Definition f_%s (m : mode) %s : res N :=\n  %s.\n\n" % (fn, " ".join("(%s : N)" % x for x in params), to_gallina(e, bitconsts))
+        # a helper that can no longer be translated is LEFT OUT (recorded in SOFT_ERRORS): whatever refers to it then
+        # fails to build, and only the properties whose cone refers to it are affected
+        try:
+            m = re.search(r"pub fn " + fn + r"\s*\(([^)]*)\)\s*->\s*usize\s*\{", bits)
+            if not m:
+                raise GenError("helper not found: " + fn)
+            params = [p.split(":")[0].strip() for p in m.group(1).split(",")]
+            body = strip_comments(fn_body(bits, r"pub fn " + fn + r"\s*\(")).strip()
+            if ";" in body:
+                raise GenError("helper %s is no longer a single expression" % fn)
+            p = RustExpr(tokenize(body))
+            e = p.expr()
+            if p.i != len(p.t):
+                raise GenError("helper %s: trailing tokens" % fn)
+            text = "(* %s *)\n" % re.sub(r"\s+", " ", body)
+            text += "Definition f_%s (m : mode) %s : res N :=\n  %s.\n\n" % (fn, " ".join("(%s : N)" % x for x in params), to_gallina(e, bitconsts))
+            s += text
+        except GenError as e:
+            SOFT_ERRORS.append({"file": "Funs.v", "function": "bits.rs::" + fn, "source": "bits.rs", "msg": str(e)})
+            s += "(* %s: NOT TRANSLATED (%s) *)\n\n" % (fn, str(e).replace("*)", "* )"))
     return s
 
 
@@ -1323,12 +1333,17 @@ def gen_funs2(consts):
             raise GenError("helper not found: " + fn)
         known[("Funs.v", fn)] = len([p for p in mm.group(1).split(",") if p.strip()])
     for gname, rel, impl_ty, name in FUNS2:
-        sig, body = find_fn(rel, impl_ty, name)
-        f = Fn2(gname, rel, impl_ty, name, sig, body, consts, known)
-        text, ptys, ret = f.translate()
-        src = re.sub(r"\s+", " ", "fn %s%s { %s }" % (name, sig, body.strip())).replace("(*", "( *").replace("*)", "* )")
-        s += "(* %s%s:\n   %s *)\n%s\n" % (rel, " impl " + impl_ty if impl_ty else "", src, text)
-        known[(rel, impl_ty, name)] = ("f2_" + gname, ptys, ret)
+        try:
+            sig, body = find_fn(rel, impl_ty, name)
+            f = Fn2(gname, rel, impl_ty, name, sig, body, consts, known)
+            text, ptys, ret = f.translate()
+            src = re.sub(r"\s+", " ", "fn %s%s { %s }" % (name, sig, body.strip())).replace("(*", "( *").replace("*)", "* )")
+            s += "(* %s%s:\n   %s *)\n%s\n" % (rel, " impl " + impl_ty if impl_ty else "", src, text)
+            known[(rel, impl_ty, name)] = ("f2_" + gname, ptys, ret)
+        except GenError as e:
+            # left out (see gen_funs): its tie lemma, and only that, no longer builds
+            SOFT_ERRORS.append({"file": "Funs2.v", "function": "%s::%s%s" % (rel, impl_ty + "::" if impl_ty else "", name), "source": rel, "msg": str(e)})
+            s += "(* %s %s::%s: NOT TRANSLATED (%s) *)\n\n" % (rel, impl_ty, name, str(e).replace("*)", "* )"))
     return s
 
 
@@ -1393,20 +1408,40 @@ GEN_FILES = ["Tables.v", "Consts.v", "Layout.v", "TempName.v", "Funs.v", "Funs2.
 def main():
     os.makedirs(OUT, exist_ok=True)
     report = {"changed": [], "errors": []}
+    # Each file is generated on its own. A file that cannot be generated keeps its previous content (STALE: it no
+    # longer says what the source says) and is reported in "errors"; check.py turns that into a broken translator for
+    # exactly the properties whose cone depends on the file. A single helper of Funs.v / Funs2.v that cannot be
+    # translated is left out of the file (also reported, with "function"): what refers to it stops building.
+    outputs = {}
+    cmap = None
+    def attempt(name, thunk):
+        try:
+            outputs[name] = thunk()
+        except GenError as e:
+            report["errors"].append({"file": name, "msg": str(e)})
+    attempt("Tables.v", lambda: gen_tables()[0])
     try:
-        tables, _ = gen_tables()
         consts, cmap, _ = gen_consts()
-        layout, _ = gen_layout()
-        tempname, _ = gen_tempname()
-        funs = gen_funs(cmap)
-        funs2 = gen_funs2(cmap)
-        mmapcfg = gen_mmapcfg()
+        outputs["Consts.v"] = consts
     except GenError as e:
-        print("GEN-ERROR: %s" % e)
-        sys.exit(2)
-    for name, content in [("Tables.v", tables), ("Consts.v", consts), ("Layout.v", layout), ("TempName.v", tempname), ("Funs.v", funs), ("Funs2.v", funs2), ("MmapCfg.v", mmapcfg)]:
-        if write_if_changed(os.path.join(OUT, name), content):
-            report["changed"].append(name)
+        report["errors"].append({"file": "Consts.v", "msg": str(e)})
+    attempt("Layout.v", lambda: gen_layout()[0])
+    attempt("TempName.v", lambda: gen_tempname()[0])
+    if cmap is not None:
+        attempt("Funs.v", lambda: gen_funs(cmap))
+        attempt("Funs2.v", lambda: gen_funs2(cmap))
+    else:
+        report["errors"].append({"file": "Funs.v", "msg": "constants unavailable"})
+        report["errors"].append({"file": "Funs2.v", "msg": "constants unavailable"})
+    attempt("MmapCfg.v", lambda: gen_mmapcfg())
+    report["errors"] += SOFT_ERRORS
+    for name in GEN_FILES:
+        if name in outputs:
+            if write_if_changed(os.path.join(OUT, name), outputs[name]):
+                report["changed"].append(name)
+        elif not os.path.exists(os.path.join(OUT, name)):
+            print("GEN-ERROR: %s cannot be generated and no earlier version exists: %s" % (name, report["errors"]))
+            sys.exit(2)
     h = hashlib.sha256()
     for name in GEN_FILES:
         with open(os.path.join(OUT, name), "rb") as f:
